@@ -17,6 +17,9 @@ package main
 //                             selected nothing, or is `blocked` on capMu
 //        shift n              ShiftMatchingTreasures{KEY ASC, HowMany n, Filters status==idle, Cap}, synchronous (refused with
 //                             `busy` while a stopped batch holds capMu)
+//        ssubmit B n          the same call as batch B of its own (B = 1..3): `done shifted=… reached=…`, or `blocked` on capMu —
+//                             it then runs when the holder leaves.  Up to three batches of any kind share the cap; when several
+//                             wait for capMu the order in which they get it is observed (` unblocked=<B>@<stop>` …) and handed to the model
 // reply: <event> m=<records matching the filter now> mu=<free|held>
 //        event of `step`: mid | patch | done r=[P|X…] reached=<CapReached> | blocked (no progress while the
 //        other batch holds capMu — observed by absence of the next hook event); when a batch finishes
@@ -29,6 +32,8 @@ import (
 	"context"
 	"fmt"
 	"math/rand"
+	"os"
+	"sort"
 	"strconv"
 	"strings"
 	"sync"
@@ -47,11 +52,14 @@ import (
 type c12Stop struct {
 	name string
 	rel  chan struct{}
+	b    int // the batch whose goroutine reached the hook (0: unknown)
 }
 
 type c12Batch struct {
 	n       int
 	expired bool // a PatchExpired call (one stop: pexp.selected)
+	shift   bool // a ShiftMatching call (no stop: it runs to its end as soon as it has capMu)
+	sresp   *hydrapb.ShiftMatchingTreasuresResponse
 	xresp   *hydrapb.PatchExpiredTreasuresResponse
 	patches int
 	stop    *c12Stop // where it is stopped now (nil: running / blocked / done)
@@ -73,7 +81,10 @@ type c12World struct {
 	passAll bool
 	xActive bool // a PatchExpired batch of this case is running
 	batches map[int]*c12Batch
-	holder  int // batch observed to have taken capMu (0: nobody)
+	byGo    map[string]int // goroutine → batch (the hooks carry no caller identity)
+	lockSeq int            // capMu acquisitions observed so far (hooks right after the Lock)
+	seqOf   map[int]int    // batch → number of its capMu acquisition
+	holder  int            // batch observed to have taken capMu (0: nobody)
 	broken  bool
 }
 
@@ -87,6 +98,19 @@ func c12StatusFilter() *hydrapb.FilterGroup {
 }
 
 func (w *c12World) handler(hook string, args ...any) {
+	if hook == "cap.mid" || hook == "pexp.locked" || hook == "shiftm.locked" {
+		// the caller has just taken capMu: remember the order (it tells which of several waiting calls ran first)
+		g := goid()
+		w.mu.Lock()
+		if bn := w.byGo[g]; bn != 0 {
+			w.lockSeq++
+			w.seqOf[bn] = w.lockSeq
+		}
+		w.mu.Unlock()
+		if hook != "cap.mid" {
+			return
+		}
+	}
 	if hook == "pexp.selected" {
 		// PatchExpired between its count+select step and the per-record patches (no swamp identity in
 		// this hook: only the case's own calls run in this process)
@@ -97,7 +121,11 @@ func (w *c12World) handler(hook string, args ...any) {
 			return
 		}
 		n, _ := args[0].(int)
-		st := &c12Stop{name: "selected=" + strconv.Itoa(n), rel: make(chan struct{})}
+		g := goid()
+		w.mu.Lock()
+		bn := w.byGo[g]
+		w.mu.Unlock()
+		st := &c12Stop{name: "selected=" + strconv.Itoa(n), rel: make(chan struct{}), b: bn}
 		w.events <- st
 		<-st.rel
 		return
@@ -109,20 +137,33 @@ func (w *c12World) handler(hook string, args ...any) {
 	if !ok || w.sw == nil || sw.GetName().Get() != w.swName.Get() {
 		return
 	}
+	if hook != "cap.pre" && hook != "cap.mid" && hook != "cap.patch" {
+		return // points used by the stress domain only
+	}
 	if hook == "cap.patch" {
 		if capOn, _ := args[2].(bool); !capOn {
 			return
 		}
 	}
+	g := goid()
 	w.mu.Lock()
 	pass := w.passAll
+	bn := w.byGo[g]
 	w.mu.Unlock()
 	if pass {
 		return
 	}
-	st := &c12Stop{name: strings.TrimPrefix(hook, "cap."), rel: make(chan struct{})}
+	st := &c12Stop{name: strings.TrimPrefix(hook, "cap."), rel: make(chan struct{}), b: bn}
 	w.events <- st
 	<-st.rel
+}
+
+// register ties the calling goroutine to batch bn (hooks are attributed through it).
+func (w *c12World) register(bn int) {
+	g := goid()
+	w.mu.Lock()
+	w.byGo[g] = bn
+	w.mu.Unlock()
 }
 
 func (w *c12World) matching() int {
@@ -147,7 +188,25 @@ func (w *c12World) tail() string {
 	if w.sw != nil && swamp.VerifCapMuFree(w.sw) {
 		mu = "free"
 	}
-	return fmt.Sprintf("m=%d mu=%s", w.matching(), mu)
+	dbg := ""
+	if os.Getenv("C12_DEBUG") != "" && w.sw != nil {
+		for i := 0; i < 8; i++ {
+			t, err := w.sw.GetTreasure(c12Key(i))
+			c := "-"
+			if err == nil && t != nil {
+				c = "?"
+				if raw, e := t.GetContentByteArray(); e == nil && len(raw) >= 2 {
+					var m map[string]any
+					if msgpack.Unmarshal(raw[2:], &m) == nil {
+						c = fmt.Sprint(m["status"])[:1]
+					}
+				}
+			}
+			dbg += c
+		}
+		dbg = " recs=" + dbg
+	}
+	return fmt.Sprintf("m=%d mu=%s%s", w.matching(), mu, dbg)
 }
 
 func (w *c12World) timeout() {
@@ -170,6 +229,12 @@ func c12Val(active bool) []byte {
 
 func (w *c12World) finish(b *c12Batch) string {
 	b.fin = true
+	if b.shift {
+		if b.err != nil || b.sresp == nil {
+			return "done error"
+		}
+		return fmt.Sprintf("done shifted=%d reached=%v", len(b.sresp.GetTreasures()), b.sresp.GetCapReached())
+	}
 	if b.expired {
 		if b.err != nil || b.xresp == nil {
 			return "done error"
@@ -197,18 +262,110 @@ func (w *c12World) finish(b *c12Batch) string {
 	return fmt.Sprintf("done r=[%s] reached=%v", strings.Join(r, ","), b.resp.GetCapReached())
 }
 
+// heldByOther: another batch of the case is known to hold capMu right now.
+func (w *c12World) heldByOther(b *c12Batch) bool {
+	o := w.batches[w.holder]
+	return o != nil && o != b && !o.fin && !swamp.VerifCapMuFree(w.sw)
+}
+
+// cascade: capMu has just been released. One of the batches that were waiting for it gets it — which
+// one is the runtime's choice (observed, reported as ` unblocked=<B>@<where it is now>`). A batch that
+// runs to its end without a stop (a ShiftMatching, a PatchExpired that selects nothing) releases
+// capMu again, and the next one follows.
+func (w *c12World) cascade() string {
+	res := ""
+	for {
+		var blocked []*c12Batch
+		for _, o := range w.batches {
+			if o.blocked && !o.fin {
+				blocked = append(blocked, o)
+			}
+		}
+		if len(blocked) == 0 {
+			return res
+		}
+		// (a waiting call that has returned is listed in the order in which the calls took capMu)
+		bySeq := func() {
+			w.mu.Lock()
+			sort.Slice(blocked, func(i, j int) bool {
+				a, b := w.seqOf[blocked[i].n], w.seqOf[blocked[j].n]
+				if a == 0 {
+					a = 1 << 30
+				}
+				if b == 0 {
+					b = 1 << 30
+				}
+				return a < b
+			})
+			w.mu.Unlock()
+		}
+		deadline := time.Now().Add(3 * time.Second)
+		progressed := false
+		for !progressed {
+			bySeq()
+			select {
+			case st := <-w.events:
+				o := w.batches[st.b]
+				if o == nil {
+					close(st.rel)
+					break
+				}
+				// o holds capMu now: a waiting batch that has already returned got it — and released it — before o
+				for _, x := range blocked {
+					if x == o {
+						continue
+					}
+					select {
+					case <-x.done:
+						x.blocked = false
+						res += fmt.Sprintf(" unblocked=%d@%s", x.n, w.finish(x))
+					default:
+					}
+				}
+				o.blocked = false
+				o.stop = st
+				o.passed++
+				w.holder = o.n
+				return res + fmt.Sprintf(" unblocked=%d@%s", o.n, st.name)
+			default:
+			}
+			for _, o := range blocked {
+				w.mu.Lock()
+				took := w.seqOf[o.n] != 0
+				w.mu.Unlock()
+				select {
+				case <-o.done:
+					o.blocked = false
+					res += fmt.Sprintf(" unblocked=%d@%s", o.n, w.finish(o))
+					progressed = true
+				default:
+				}
+				// the earliest call that has taken capMu comes first: wait for its return (or its stop)
+				if progressed || took {
+					break
+				}
+			}
+			if !progressed {
+				if time.Now().After(deadline) {
+					w.timeout()
+					return res + " unblocked-timeout"
+				}
+				time.Sleep(200 * time.Microsecond)
+			}
+		}
+	}
+}
+
 // advance waits for what a released batch does next: its next stop, its completion, or nothing.
-func (w *c12World) advance(b *c12Batch, other *c12Batch) string {
+func (w *c12World) advance(b *c12Batch) string {
 	last := b.passed >= 2+b.patches || b.expired // no hook left: the next thing is its return
-	short := other != nil && !other.fin && w.holder == other.n && !swamp.VerifCapMuFree(w.sw)
+	short := w.heldByOther(b)
 	defer func() {
 		// who holds capMu now, by observation
 		free := swamp.VerifCapMuFree(w.sw)
 		switch {
 		case free:
 			w.holder = 0
-		case b.fin && other != nil && !other.fin && !other.blocked:
-			w.holder = other.n
 		case w.holder == 0 && !b.fin && !b.blocked:
 			w.holder = b.n
 		}
@@ -225,23 +382,10 @@ func (w *c12World) advance(b *c12Batch, other *c12Batch) string {
 			return "unexpected-timeout"
 		}
 		res := w.finish(b)
-		if other != nil && other.blocked {
-			// the batch that was waiting for capMu continues to its next stop
-			select {
-			case st := <-w.events:
-				other.blocked = false
-				other.stop = st
-				other.passed++
-				res += fmt.Sprintf(" unblocked=%d@%s", other.n, st.name)
-			case <-other.done:
-				other.blocked = false
-				res += fmt.Sprintf(" unblocked=%d@%s", other.n, w.finish(other))
-			case <-time.After(3 * time.Second):
-				w.timeout()
-				res += " unblocked-timeout"
-			}
+		if w.holder == b.n {
+			w.holder = 0
 		}
-		return res
+		return res + w.cascade()
 	}
 	select {
 	case st := <-w.events:
@@ -304,7 +448,15 @@ func genC12(rng *rand.Rand, tier string, w *bufio.Writer) {
 	fmt.Fprintln(w, "case 4\ninit 2 0 0 0 0\nxsubmit 1 0\nxsubmit 2 0\nstep 1\nstep 2\nshift 3")
 	// PatchExpired against a PatchTreasures batch, HowMany below the budget, ShiftMatching bounded by the budget
 	fmt.Fprintln(w, "case 5\ninit 3 1 0 0 0 0\nxsubmit 1 1\nsubmit 2 2:1 3:1\nstep 2\nstep 2\nstep 1\nstep 2\nstep 2\nshift 5\nxsubmit 1 0")
-	for c := 6; c < cases; c++ {
+	// a matching record WITHOUT an expiry (created by a cap-bearing PatchTreasures) next to an idle expired one:
+	// PatchExpired must count it (sequential: cap 1, the create takes the whole budget)
+	fmt.Fprintln(w, "case 6\ninit 1 0 -\nsubmit 1 c=i 1:1\nstep 1\nstep 1\nstep 1\nxsubmit 2 1\nstep 2")
+	// three calls, three entry points, one cap: a PatchTreasures batch holds capMu; a PatchExpired and a ShiftMatching wait
+	// for it; when the batch leaves, both run (in the order the runtime picks) against the budget the batch left behind
+	fmt.Fprintln(w, "case 7\ninit 2 0 0 0 0 0\nsubmit 1 0:1\nstep 1\nxsubmit 2 0\nssubmit 3 2\nstep 1\nstep 1\nstep 2\nstep 2\nstep 3")
+	// PatchExpired holds capMu with its selection made; a batch and a shift wait; a second batch of the freed number later
+	fmt.Fprintln(w, "case 8\ninit 3 1 0 0 0 0 0\nxsubmit 1 1\nsubmit 2 2:1 3:1 4:1\nstep 2\nssubmit 3 1\nstep 1\nstep 2\nstep 2\nstep 2\nstep 2\nstep 3\nshift 2")
+	for c := 9; c < cases; c++ {
 		fmt.Fprintf(w, "case %d\n", c)
 		n := 2 + rng.Intn(5)
 		m := 1 + rng.Intn(3)
@@ -322,8 +474,14 @@ func genC12(rng *rand.Rand, tier string, w *bufio.Writer) {
 			recs = append(recs, v)
 		}
 		fmt.Fprintf(w, "init %d %s\n", m, strings.Join(recs, " "))
-		left := [3]int{}
-		for b := 1; b <= 2; b++ {
+		left := [4]int{}
+		nb := 2 + rng.Intn(2) // two or three concurrent cap-bearing calls, mixed entry points
+		for b := 1; b <= nb; b++ {
+			if b > 1 && rng.Intn(5) == 0 {
+				// ShiftMatching as a concurrent call: it waits for capMu, then runs to its end
+				fmt.Fprintf(w, "ssubmit %d %d\n", b, 1+rng.Intn(3))
+				continue
+			}
 			if rng.Intn(3) == 0 {
 				fmt.Fprintf(w, "xsubmit %d %d\n", b, rng.Intn(3))
 				left[b] = 1
@@ -347,16 +505,21 @@ func genC12(rng *rand.Rand, tier string, w *bufio.Writer) {
 			fmt.Fprintf(w, "submit %d %s\n", b, strings.Join(ps, " "))
 			left[b] = 2 + p
 		}
-		for left[1]+left[2] > 0 {
-			b := 1 + rng.Intn(2)
-			if left[b] == 0 {
-				b = 3 - b
+		for left[1]+left[2]+left[3] > 0 {
+			b := 1 + rng.Intn(3)
+			for left[b] == 0 {
+				b = 1 + b%3
 			}
 			fmt.Fprintf(w, "step %d\n", b)
 			left[b]--
+			if rng.Intn(12) == 0 && nb < 3 {
+				// a latecomer of the third kind while the others are under way
+				nb = 3
+				fmt.Fprintf(w, "ssubmit 3 %d\n", 1+rng.Intn(2))
+			}
 		}
 		// a batch that was reported `blocked` used up a step without moving
-		fmt.Fprintln(w, "step 1\nstep 2\nstep 1\nstep 2")
+		fmt.Fprintln(w, "step 1\nstep 2\nstep 3\nstep 1\nstep 2\nstep 3\nstep 1\nstep 2\nstep 3")
 		if rng.Intn(2) == 0 {
 			fmt.Fprintf(w, "shift %d\n", 1+rng.Intn(3))
 		}
@@ -380,7 +543,7 @@ func runC12(in *bufio.Scanner, out *bufio.Writer) {
 		if w != nil {
 			w.cleanup()
 		}
-		w = &c12World{rig: rig, events: make(chan *c12Stop, 16), batches: map[int]*c12Batch{},
+		w = &c12World{rig: rig, events: make(chan *c12Stop, 16), batches: map[int]*c12Batch{}, byGo: map[string]int{}, seqOf: map[int]int{},
 			swName: name.New().Sanctuary("c12").Realm("case").Swamp(fmt.Sprintf("%s-%d", caseNo, runID))}
 		verifhook.SetHandler(w.handler)
 	}
@@ -438,7 +601,7 @@ func runC12(in *bufio.Scanner, out *bufio.Writer) {
 			fmt.Fprintf(out, "init %s\n", w.tail())
 		case "submit":
 			bn, err := strconv.Atoi(f[1])
-			if len(f) < 3 || err != nil || w.sw == nil || w.batches[bn] != nil || bn < 1 || bn > 2 {
+			if len(f) < 3 || err != nil || w.sw == nil || w.batches[bn] != nil || bn < 1 || bn > 3 {
 				fmt.Fprintln(out, "skip")
 				break
 			}
@@ -460,6 +623,7 @@ func runC12(in *bufio.Scanner, out *bufio.Writer) {
 				CreateIfNotExist: create, InitialMsgpackOnCreate: seed,
 				Cap: &hydrapb.Cap{Filter: c12StatusFilter(), MaxMatching: w.cap}}
 			go func() {
+				w.register(bn)
 				b.resp, b.err = rig.GW.PatchTreasures(ctx, req)
 				close(b.done)
 			}()
@@ -475,14 +639,13 @@ func runC12(in *bufio.Scanner, out *bufio.Writer) {
 			}
 		case "xsubmit":
 			bn, err := strconv.Atoi(f[1])
-			if len(f) != 3 || err != nil || w.sw == nil || w.batches[bn] != nil || bn < 1 || bn > 2 {
+			if len(f) != 3 || err != nil || w.sw == nil || w.batches[bn] != nil || bn < 1 || bn > 3 {
 				fmt.Fprintln(out, "skip")
 				break
 			}
 			n, _ := strconv.Atoi(f[2])
 			b := &c12Batch{n: bn, expired: true, done: make(chan struct{})}
 			w.batches[bn] = b
-			other := w.batches[3-bn]
 			active, _ := msgpack.Marshal("active")
 			req := &hydrapb.PatchExpiredTreasuresRequest{IslandID: 1, SwampName: w.swName.Get(), HowMany: int32(n),
 				Ops:  []*hydrapb.PatchOp{{Op: hydrapb.PatchOp_SET, Path: "status", Value: active}},
@@ -491,12 +654,13 @@ func runC12(in *bufio.Scanner, out *bufio.Writer) {
 			w.mu.Lock()
 			w.xActive = true
 			w.mu.Unlock()
-			short := other != nil && !other.fin && w.holder == other.n && !swamp.VerifCapMuFree(w.sw)
+			short := w.heldByOther(b)
 			d := 3 * time.Second
 			if short {
 				d = 80 * time.Millisecond
 			}
 			go func() {
+				w.register(bn)
 				b.xresp, b.err = rig.GW.PatchExpiredTreasures(ctx, req)
 				close(b.done)
 			}()
@@ -520,6 +684,46 @@ func runC12(in *bufio.Scanner, out *bufio.Writer) {
 				}
 			}
 			fmt.Fprintf(out, "xsubmit %d %s %s\n", bn, res, w.tail())
+		case "ssubmit":
+			// a ShiftMatching call as a batch of its own: it needs capMu like the others
+			bn, err := strconv.Atoi(f[1])
+			if len(f) != 3 || err != nil || w.sw == nil || w.batches[bn] != nil || bn < 1 || bn > 3 {
+				fmt.Fprintln(out, "skip")
+				break
+			}
+			n, _ := strconv.Atoi(f[2])
+			b := &c12Batch{n: bn, shift: true, done: make(chan struct{})}
+			w.batches[bn] = b
+			short := w.heldByOther(b)
+			d := 3 * time.Second
+			if short {
+				d = 80 * time.Millisecond
+			}
+			p := "status"
+			req := &hydrapb.ShiftMatchingTreasuresRequest{IslandID: 1, SwampName: w.swName.Get(),
+				IndexType: hydrapb.IndexType_KEY, OrderType: hydrapb.OrderType_ASC, HowMany: int32(n),
+				Filters: &hydrapb.FilterGroup{Logic: hydrapb.FilterLogic_AND, Filters: []*hydrapb.TreasureFilter{{BytesFieldPath: &p,
+					Operator: hydrapb.Relational_EQUAL, CompareValue: &hydrapb.TreasureFilter_StringVal{StringVal: "idle"}}}},
+				Cap: &hydrapb.Cap{Filter: c12StatusFilter(), MaxMatching: w.cap}}
+			go func() {
+				w.register(bn)
+				b.sresp, b.err = rig.GW.ShiftMatchingTreasures(ctx, req)
+				close(b.done)
+			}()
+			res := ""
+			select {
+			case <-b.done:
+				res = w.finish(b)
+			case <-time.After(d):
+				if short {
+					b.blocked = true
+					res = "blocked"
+				} else {
+					w.timeout()
+					res = "unexpected-timeout"
+				}
+			}
+			fmt.Fprintf(out, "ssubmit %d %s %s\n", bn, res, w.tail())
 		case "shift":
 			if len(f) != 2 || w.sw == nil {
 				fmt.Fprintln(out, "skip")
@@ -548,14 +752,13 @@ func runC12(in *bufio.Scanner, out *bufio.Writer) {
 				fmt.Fprintln(out, "skip")
 				break
 			}
-			other := w.batches[3-bn]
 			st := b.stop
 			b.stop = nil
 			if b.passed == 0 {
 				b.passed = 1 // leaving `pre`
 			}
 			close(st.rel)
-			fmt.Fprintf(out, "step %d %s %s\n", bn, w.advance(b, other), w.tail())
+			fmt.Fprintf(out, "step %d %s %s\n", bn, w.advance(b), w.tail())
 		default:
 			fmt.Fprintln(out, "bad-op")
 		}
